@@ -382,6 +382,28 @@ pub fn run_thr(trace: &Trace) -> (RunReport, Vec<u8>) {
         }
     }
 
+    // A value callback (weigher / `V::clone`) only runs on the caller's side of an insert or a
+    // get -- before the map is touched, or inside the map closure -- never inside maintenance:
+    // after such a panic the cache is fully usable and every check stays on; only the keys of
+    // the panicked operations are left out of the per-key history check. Key callbacks
+    // (`K::hash` / `K::eq` also run inside maintenance and map operations) and anything that
+    // panicked afterwards keep the checks off.
+    let mut tainted_keys: BTreeSet<u16> = BTreeSet::new();
+    if injected
+        && key_panics == 0
+        && !hist.iter().any(|r| matches!(&r.res, Res::Panicked(m) if !m.contains(INJECTED_PANIC)))
+    {
+        for r in &hist {
+            if matches!(&r.res, Res::Panicked(_)) {
+                if let Some(k) = r.op.key() {
+                    tainted_keys.insert(k);
+                }
+            }
+        }
+        injected = false;
+        rep.flag("panicked_insert_judged", 1);
+    }
+
     // ---- bounded liveness (C09) ----------------------------------------------------------
     let horizon = spec.fair_after.min(srep.steps) as u64;
     let bound = 64 * (total_ops as u64 + 384) + 1000;
@@ -588,7 +610,7 @@ pub fn run_thr(trace: &Trace) -> (RunReport, Vec<u8>) {
             }
         }
 
-        judge_history(trace, &hist, &prologue_writes, &cache, now, srep.steps as u64, &mut rep);
+        judge_history(trace, &hist, &prologue_writes, &cache, now, srep.steps as u64, &tainted_keys, &mut rep);
 
         // ---- C03 refill (Q6) ---------------------------------------------------------------
         if let (Some(cap), true) = (cfg.cap, queues_empty) {
@@ -803,6 +825,7 @@ fn judge_history(
     cache: &SyncCache,
     now: u64,
     end_step: u64,
+    skip_keys: &BTreeSet<u16>,
     rep: &mut RunReport,
 ) {
     let cfg = &trace.config;
@@ -949,6 +972,9 @@ fn judge_history(
     }
 
     for k in &keys {
+        if skip_keys.contains(k) {
+            continue;
+        }
         let mut evs: Vec<LinEvent> = Vec::new();
         for (pk, vid, _) in prologue {
             if pk == k {
